@@ -38,6 +38,108 @@ type queueObs struct {
 	mutated string
 }
 
+// multiObs: a history with several concurrent adders.
+type multiObs struct {
+	cap       int
+	total     int
+	perReader [][]snap // per reader, in the order the reader took them
+	final     []int
+}
+
+// checkMulti: the snapshots of a history with concurrent adders are windows of ONE addition order.
+func checkMulti(o *multiObs) string {
+	succ, pred := map[int]int{}, map[int]int{}
+	window := func(who string, ids []int) string {
+		if len(ids) > o.cap {
+			return fmt.Sprintf("%s holds %d messages, capacity %d", who, len(ids), o.cap)
+		}
+		lastSeq := map[int]int{}
+		seen := map[int]bool{}
+		for j, id := range ids {
+			if seen[id] {
+				return fmt.Sprintf("%s holds message %#x twice: %x", who, id, ids)
+			}
+			seen[id] = true
+			a, q := id>>20, id&0xfffff
+			if a < 30 {
+				if p, ok := lastSeq[a]; ok && q <= p {
+					return fmt.Sprintf("%s shows the additions of one goroutine out of their order: %x", who, ids)
+				}
+				lastSeq[a] = q
+			}
+			if j > 0 {
+				x := ids[j-1]
+				if y, ok := succ[x]; ok && y != id {
+					return fmt.Sprintf("%s has %#x directly followed by %#x, another snapshot had it directly followed by %#x: no single addition order explains both", who, x, id, y)
+				}
+				if x0, ok := pred[id]; ok && x0 != x {
+					return fmt.Sprintf("%s has %#x directly preceded by %#x, another snapshot had it directly preceded by %#x: no single addition order explains both", who, id, x, x0)
+				}
+				succ[x], pred[id] = id, x
+			}
+		}
+		return ""
+	}
+	for r, snaps := range o.perReader {
+		for k, s := range snaps {
+			who := fmt.Sprintf("snapshot %d of reader %d", k, r)
+			if msg := window(who, s.ids); msg != "" {
+				return msg
+			}
+			want := s.addsDoneBefore
+			if want > int64(o.cap) {
+				want = int64(o.cap)
+			}
+			if int64(len(s.ids)) < want || int64(len(s.ids)) > s.addsBegunAfter {
+				return fmt.Sprintf("%s holds %d messages; %d additions had completed before it was invoked and %d had begun when it returned (capacity %d)", who, len(s.ids), s.addsDoneBefore, s.addsBegunAfter, o.cap)
+			}
+			if k > 0 {
+				// the later window of the same reader: what it shares with the earlier one is the end of
+				// the earlier and the beginning of the later one
+				prev := snaps[k-1].ids
+				in := map[int]int{}
+				for i, id := range prev {
+					in[id] = i
+				}
+				shared := 0
+				for j, id := range s.ids {
+					if i, ok := in[id]; ok {
+						if j != shared || i != len(prev)-(countShared(prev, s.ids)-shared) {
+							return fmt.Sprintf("reader %d saw %x and then %x: the second is not a later window of the same order", r, prev, s.ids)
+						}
+						shared++
+					}
+				}
+			}
+		}
+	}
+	if msg := window("the final snapshot", o.final); msg != "" {
+		return msg
+	}
+	want := o.total
+	if want > o.cap {
+		want = o.cap
+	}
+	if len(o.final) != want {
+		return fmt.Sprintf("after %d additions the queue holds %d messages, expected %d", o.total, len(o.final), want)
+	}
+	return ""
+}
+
+func countShared(a, b []int) int {
+	in := map[int]bool{}
+	for _, x := range a {
+		in[x] = true
+	}
+	n := 0
+	for _, x := range b {
+		if in[x] {
+			n++
+		}
+	}
+	return n
+}
+
 func init() {
 	// queue <cap> a0 a1 g a2 g …
 	opTable["queue"] = func(t []string) *Obs {
@@ -169,10 +271,96 @@ func init() {
 		o.snaps = append(o.snaps, s)
 		return &Obs{Line: fmt.Sprintf("final %v", s.ids), Data: o, NoModel: true}
 	}
+	// queuemulti <cap> <adders> <perAdder> <readers> <parkRounds>: several goroutines add concurrently
+	// (ids adder<<20|seq) while readers take snapshots; with parkRounds > 0 the run continues with
+	// rounds in which one adder is made to wait at the queue's own lock while a second addition
+	// overtakes it (the queue's exported Lock/Unlock, when it has them)
+	opTable["queuemulti"] = func(t []string) *Obs {
+		cp, adders, per, readers, park := atoi(t[1]), atoi(t[2]), atoi(t[3]), atoi(t[4]), atoi(t[5])
+		q := circularQueue.NewCircularQueue(cp)
+		o := &multiObs{cap: cp, perReader: make([][]snap, readers)}
+		if queueDeadlocked != "" {
+			return &Obs{Line: "deadlock", Data: o, Panic: queueDeadlocked, NoModel: true}
+		}
+		var begun, done int64
+		var wg sync.WaitGroup
+		stop := make(chan struct{})
+		for r := 0; r < readers; r++ {
+			wg.Add(1)
+			go func(r int) {
+				defer wg.Done()
+				for {
+					select {
+					case <-stop:
+						return
+					default:
+					}
+					d := atomic.LoadInt64(&done)
+					ms := q.GetMessages()
+					b := atomic.LoadInt64(&begun)
+					s := snap{addsDoneBefore: d, addsBegunAfter: b}
+					for _, m := range ms {
+						s.ids = append(s.ids, msgID(m))
+					}
+					if len(o.perReader[r]) < 20000 {
+						o.perReader[r] = append(o.perReader[r], s)
+					}
+				}
+			}(r)
+		}
+		add := func(id int) {
+			atomic.AddInt64(&begun, 1)
+			q.Add(idMsg(id))
+			atomic.AddInt64(&done, 1)
+		}
+		finished := make(chan struct{})
+		go func() {
+			var aw sync.WaitGroup
+			for a := 0; a < adders; a++ {
+				aw.Add(1)
+				go func(a int) {
+					defer aw.Done()
+					for i := 0; i < per; i++ {
+						add((a+1)<<20 | i)
+						if i%32 == a {
+							time.Sleep(20 * time.Microsecond)
+						}
+					}
+				}(a)
+			}
+			aw.Wait()
+			o.total = adders * per
+			if locker, ok := interface{}(q).(sync.Locker); ok {
+				for k := 0; k < park; k++ {
+					locker.Lock()
+					aw.Add(1)
+					go func() { defer aw.Done(); add(30<<20 | k) }()
+					time.Sleep(200 * time.Microsecond) // the first adder reaches the lock and waits
+					locker.Unlock()
+					add(31<<20 | k) // overtakes it
+					aw.Wait()
+					o.total += 2
+				}
+			}
+			close(stop)
+			wg.Wait()
+			close(finished)
+		}()
+		select {
+		case <-finished:
+		case <-time.After(20 * time.Second):
+			queueDeadlocked = fmt.Sprintf("deadlock: after 20 s only %d additions had completed while %d readers were taking snapshots", atomic.LoadInt64(&done), readers)
+			return &Obs{Line: "deadlock", Data: o, Panic: queueDeadlocked, NoModel: true}
+		}
+		for _, m := range q.GetMessages() {
+			o.final = append(o.final, msgID(m))
+		}
+		return &Obs{Line: fmt.Sprintf("final %d", len(o.final)), Data: o, NoModel: true}
+	}
 	props["C18"] = &Prop{
 		Rule: "op queuelong <cap> <n>: 70,000 (thorough 140,000) additions with snapshots around every power of two up to 2^17; op queue <cap> a<id>… g…: operation sequences over capacities 1..8 — exhaustive add/snapshot interleavings to a bound (quick: length 8, thorough: 12) plus long runs far beyond the capacity — " +
 			"against the model and the last-N oracle; op queueconc: one adder and 1..4 snapshot readers on the real queue, every snapshot must be a contiguous run of the addition order ending between " +
-			"the adds completed before its invocation and the adds begun before its return, of the right length; non-trivial = more additions than the capacity; distinct = distinct op line",
+			"the adds completed before its invocation and the adds begun before its return, of the right length; op queuemulti: 2..4 concurrent adders and 1..3 readers, then rounds in which one adder waits at the queue's lock while another addition overtakes it - all snapshots must be windows of one addition order (no message with two different direct successors or predecessors, each reader's later window continues its earlier one, per-goroutine order kept, lengths between the additions completed and begun); non-trivial = more additions than the capacity; distinct = distinct op line",
 		Gen: func(c *Ctx, emit func(class, op string)) {
 			r := c.Rng
 			// exhaustive add/snapshot patterns up to a bound, capacities 1..8
@@ -222,8 +410,17 @@ func init() {
 			for i := 0; i < c.N(6, 60); i++ {
 				emit("concurrent", fmt.Sprintf("queueconc %d %d %d", 1+r.Intn(8), 2000+r.Intn(4000), 1+r.Intn(4)))
 			}
+			for i := 0; i < c.N(6, 40); i++ {
+				emit("concurrent-adders", fmt.Sprintf("queuemulti %d %d %d %d %d", 1+r.Intn(8), 2+r.Intn(3), 500+r.Intn(1500), 1+r.Intn(3), 40+r.Intn(60)))
+			}
 		},
 		Oracle: func(op string, ob *Obs) string {
+			if mo, ok := ob.Data.(*multiObs); ok {
+				if ob.Panic != "" {
+					return "panic or deadlock: " + ob.Panic
+				}
+				return checkMulti(mo)
+			}
 			o, ok := ob.Data.(*queueObs)
 			if !ok || ob.Panic != "" {
 				return "panic or deadlock: " + ob.Panic
@@ -265,6 +462,9 @@ func init() {
 			return ""
 		},
 		NonTrivial: func(op string, ob *Obs) bool {
+			if mo, ok := ob.Data.(*multiObs); ok {
+				return mo.total > mo.cap
+			}
 			o, ok := ob.Data.(*queueObs)
 			return ok && o.added > o.cap
 		},
